@@ -172,6 +172,7 @@ func (fr *Frame) externEffects(callee *ssa.Function, args []*Val) {
 		case *types.Slice:
 			es := U.sortOf(t.Elem())
 			hn, hs := U.elemHeapT(t.Elem())
+			fr.markDirty(hn, "")
 			h := vc.heap(fr.st, hn, hs)
 			row := vc.fresh("extrow", arrSort(SInt, es))
 			vc.setHeap(fr.st, hn, hs, store(h, sx("sarr", a.T), row))
@@ -185,12 +186,14 @@ func (fr *Frame) externEffects(callee *ssa.Function, args []*Val) {
 						continue
 					}
 					h := vc.heap(fr.st, hn, hs)
+					fr.markDirty(hn, a.T)
 					nv := fr.freshVal("extfld", st.Field(i).Type())
 					vc.setHeap(fr.st, hn, hs, store(h, a.T, nv.T))
 				}
 			} else if !isStruct(t.Elem()) && !isArray(t.Elem()) {
 				hn, hs := U.ptrHeapT(t.Elem())
 				h := vc.heap(fr.st, hn, hs)
+				fr.markDirty(hn, a.T)
 				nv := fr.freshVal("extptr", t.Elem())
 				vc.setHeap(fr.st, hn, hs, store(h, a.T, nv.T))
 			}
@@ -270,6 +273,7 @@ func (fr *Frame) havocModSet(ms *ModSet, why string) {
 			}
 			vc.initHeap(n, vc.known[n])
 			vc.havocHeap(fr.st, n)
+			fr.markDirty(n, "")
 		}
 	} else {
 		var names []string
@@ -281,10 +285,12 @@ func (fr *Frame) havocModSet(ms *ModSet, why string) {
 			ms.declareIn(vc.U, n)
 			vc.initHeap(n, ms.Names[n])
 			old := vc.heap(fr.st, n, ms.Names[n])
-			nw := vc.havocHeap(fr.st, n)
-			if !ms.NonFresh[n] && !strings.HasPrefix(n, "G|") {
+			if ms.NonFresh[n] || strings.HasPrefix(n, "G|") || !strings.HasPrefix(ms.Names[n], "(Array Int ") {
+				vc.havocHeap(fr.st, n)
+				fr.markDirty(n, "")
+			} else {
 				// written only at objects allocated during the call: existing objects keep their value
-				vc.assume(fr.reach, fmt.Sprintf("(forall ((r!q Int)) (! (=> (<= r!q %s) (= (select %s r!q) (select %s r!q))) :pattern ((select %s r!q))))", a, nw, old, nw))
+				vc.frameHeap(fr.st, n, old, a, nil)
 			}
 		}
 	}
@@ -537,6 +543,7 @@ func (fr *Frame) builtinAppend(args []*Val, argVals []ssa.Value, rt types.Type) 
 	}
 	target := ite(fits, sx("sarr", s.T), fresh)
 	// appending to a nil slice with nothing to add keeps nil
+	fr.markDirty(hn, "")
 	vc.setHeap(fr.st, hn, hs, ite(and(fits, eq(tlen, "0")), h, store(h, target, row)))
 	return fr.mkVal(res, rt)
 }
@@ -572,6 +579,7 @@ func (fr *Frame) builtinCopy(args []*Val, argVals []ssa.Value) *Val {
 		vc.assume(fr.reach, fmt.Sprintf("(forall ((j!q Int)) (! (=> (and (<= 0 j!q) (< j!q %s)) (= (select %s (+ %s j!q)) (select %s (+ %s j!q)))) :pattern ((select %s (+ %s j!q)))))", n, row, sx("soff", d.T), srow, sx("soff", s.T), row, sx("soff", d.T)))
 	}
 	vc.assume(fr.reach, fmt.Sprintf("(forall ((j!q Int)) (! (=> (or (< j!q %s) (>= j!q (+ %s %s))) (= (select %s j!q) (select %s j!q))) :pattern ((select %s j!q))))", sx("soff", d.T), sx("soff", d.T), n, row, drow, row))
+	fr.markDirty(hn, "")
 	vc.setHeap(fr.st, hn, hs, ite(eq(n, "0"), h, store(h, sx("sarr", d.T), row)))
 	return fr.mkVal(n, types.Typ[types.Int])
 }
